@@ -93,7 +93,7 @@ def scrape_tables(root, fs, emitted, which):
     """-> list of (label, table rows [(iface, [(name, value)])]) for the main file's interfaces"""
     tops = top_ifaces(fs)
     out = []
-    java_ok = all(emitted[f["path"]][("java", "both")][0] == 0 for f in fs["files"])
+    java_ok = all(emitted[f["path"]].get(("java", "both"), (1,))[0] == 0 for f in fs["files"])
     od = os.path.join(root, "out")
     stems = [os.path.splitext(os.path.basename(f["path"]))[0] for f in fs["files"]]
     mstem = os.path.splitext(os.path.basename(fs["main"]))[0]
@@ -197,6 +197,10 @@ def scrape_tables(root, fs, emitted, which):
             nr = []
             for i, r in rows:
                 names = {m[1] for c in chain_names(fs, i) for m in allif[c][3] if m[0] == "error"}
+                if which == "errs_raw":
+                    lnames = {x.lower() for x in names}
+                    nr.append((i, [(n, v) for n, v in r if n.lower() in lnames]))
+                    continue
                 nr.append((i, [(n, v) for n, v in r if n in names]))
             filt.append((lab, nr))
         out = filt
